@@ -6,6 +6,7 @@ import (
 	"fmt"
 	"os"
 	"sort"
+	"strings"
 	"sync"
 	"time"
 
@@ -65,6 +66,15 @@ func Explore(prog *ssa.Program, fn *ssa.Function, cfg *Config, opt Options) (*Re
 	var mu sync.Mutex
 	cond := sync.NewCond(&mu)
 	work := [][]int64{{}}
+	if pf := os.Getenv("SYMGO_PREFIX"); pf != "" { // debugging aid: explore below one decision prefix only
+		var pre []int64
+		for _, f := range strings.Fields(pf) {
+			var v int64
+			fmt.Sscan(f, &v)
+			pre = append(pre, v)
+		}
+		work = [][]int64{pre}
+	}
 	active := 0
 	stop := false
 	faultSeen := map[string]bool{}
